@@ -12,10 +12,9 @@ Local Notation "a +++ b" := (String.append a b) (at level 60, right associativit
 
 (* ------------------------------------------------------------------ abstract contexts *)
 Record actx := mk_actx {
-  a_binds : list (bytes * value);   (* newest first *)
-  a_empty_batch : bool              (* derived (directly or not) through SetValues / Context() of an EMPTY iterable *)
+  a_binds : list (bytes * value)    (* newest first *)
 }.
-Definition actx0 : actx := mk_actx [] false.
+Definition actx0 : actx := mk_actx [].
 
 (* the value GetValue must return: the most recent binding of exactly this key (same length, same bytes) *)
 Definition assoc (k : bytes) (l : list (bytes * value)) : value :=
@@ -63,12 +62,11 @@ Definition is_nilb {A} (l : list A) : bool := match l with [] => true | _ => fal
 (* clause contradicted by a wrong GetValue/HasKey answer for key [k] of context [i] *)
 Definition get_clause (s : sstate) (r : cref) (k : bytes) : string :=
   let i := sres s r in
-  (if a_empty_batch (sctx s i) && is_nilb k then "setvalues_empty_batch:empty_key_shadowed"
-   else match r with
-        | CCur => s_last s +++ ":current_value"
-        | CIdx _ => if Nat.eqb (S i) (length (s_pool s)) then "latest_binding_wins:newest_context"
-                    else "context_immutable:older_context"
-        end)%string.
+  (match r with
+   | CCur => s_last s +++ ":current_value"
+   | CIdx _ => if Nat.eqb (S i) (length (s_pool s)) then "latest_binding_wins:newest_context"
+               else "context_immutable:older_context"
+   end)%string.
 
 Definition dkind_name (prefix : string) (k : dkind) : string :=
   prefix +++ match k with DTop => "top_restores" | DOutOfOrder => "out_of_order_unwinds" | DForeign => "foreign_noop" end%string.
@@ -86,10 +84,10 @@ Definition sstep (s : sstate) (o : op) : sstate * list chunk :=
   match o with
   | OSet r k v =>
       let p := sctx s (sres s r) in
-      (mk_s (s_pool s ++ [mk_actx ((k, v) :: a_binds p) (a_empty_batch p)]) (s_stack s) (s_toks s) (s_last s), [])
+      (mk_s (s_pool s ++ [mk_actx ((k, v) :: a_binds p)]) (s_stack s) (s_toks s) (s_last s), [])
   | OSetValues r b =>
       let p := sctx s (sres s r) in
-      (mk_s (s_pool s ++ [mk_actx (b ++ a_binds p) (a_empty_batch p || is_nilb b)]) (s_stack s) (s_toks s) (s_last s), [])
+      (mk_s (s_pool s ++ [mk_actx (b ++ a_binds p)]) (s_stack s) (s_toks s) (s_last s), [])
   | OGet r k => (s, [(print_value (assoc k (a_binds (sctx s (sres s r)))), get_clause s r k)])
   | OHas r k => (s, [([tbool (negb (is_none (assoc k (a_binds (sctx s (sres s r))))))], get_clause s r k)])
   | OGetSpan r =>
@@ -123,7 +121,7 @@ Definition sstep (s : sstate) (o : op) : sstate * list chunk :=
   | OScope sp =>
       let p := sctx s (scur s) in
       let i := length (s_pool s) in
-      (mk_s (s_pool s ++ [mk_actx ((span_key, (KS, sp)) :: a_binds p) (a_empty_batch p)])
+      (mk_s (s_pool s ++ [mk_actx ((span_key, (KS, sp)) :: a_binds p)])
             (i :: s_stack s) (s_toks s ++ [SScope i]) "scope_activates_span", [])
   end.
 
